@@ -8,53 +8,39 @@ fn stub_format(_a: std::fmt::Arguments<'_>) -> String {
     String::new()
 }
 
-macro_rules! int_muldiv_wide {
-    ($name:ident, $t:ty, $w:ty) => {
+macro_rules! int_mul_wide {
+    ($name:ident, $t:ty, $w:ty, $tier:literal) => {
         //@ tier: quick
-        //@ functions: arrow_array::ArrowNativeTypeOp::{mul,div,mod}_{checked,wrapping}, is_zero
-        //@ bound: full width, both operands arbitrary; exact result computed in a type at least twice as wide (independent reference)
+        //@ timeout: 900
+        //@ functions: arrow_array::ArrowNativeTypeOp::{mul_checked, mul_wrapping}
+        //@ bound: full width, both operands arbitrary; exact product computed in a type at least twice as wide (independent reference); the 32-bit instances are in the thorough tier (200-500 s each)
         //@ stub: alloc::fmt::format -> empty String (error message content is outside the claim)
         #[kani::proof]
         #[kani::stub(alloc::fmt::format, stub_format)]
         fn $name() {
             let a: $t = kani::any();
             let b: $t = kani::any();
-            const MIN: $w = <$t>::MIN as $w;
-            const MAX: $w = <$t>::MAX as $w;
-            let (wa, wb) = (a as $w, b as $w);
-            let e = wa * wb;
+            let e = (a as $w) * (b as $w);
             match a.mul_checked(b) {
                 Ok(r) => assert!(r as $w == e, "mul_checked exact"),
-                Err(_) => assert!(e < MIN || e > MAX, "mul_checked errs only on overflow"),
+                Err(_) => assert!(e < <$t>::MIN as $w || e > <$t>::MAX as $w, "mul_checked errs only on overflow"),
             }
             assert!(a.mul_wrapping(b) == e as $t, "mul_wrapping = exact mod 2^w");
-            match a.div_checked(b) {
-                Ok(r) => assert!(b != 0 && r as $w == wa / wb, "div_checked exact"),
-                Err(ArrowError::DivideByZero) => assert!(b == 0, "DivideByZero iff rhs == 0"),
-                Err(_) => assert!(b != 0 && (wa / wb < MIN || wa / wb > MAX), "div overflow"),
-            }
-            match a.mod_checked(b) {
-                Ok(r) => assert!(b != 0 && r as $w == wa % wb, "mod_checked exact"),
-                Err(ArrowError::DivideByZero) => assert!(b == 0, "DivideByZero iff rhs == 0"),
-                Err(_) => assert!(b != 0 && MIN < 0 && wa == MIN && wb == -1, "mod_checked errs (std checked_rem) only for MIN % -1"),
-            }
-            assert!(a.is_zero() == (a == 0));
             kani::cover!(a.mul_checked(b).is_err(), "mul overflows");
-            kani::cover!(a.mul_checked(b).is_ok() && a != 0 && b != 0 && a != 1 && b != 1, "mul fits");
-            kani::cover!(a.div_checked(b).is_ok(), "div ok");
+            kani::cover!(a.mul_checked(b).is_ok() && a > 1 && b > 1, "mul fits");
         }
     };
 }
 
-int_muldiv_wide!(c12_native_muldiv_i8, i8, i32);
-int_muldiv_wide!(c12_native_muldiv_u8, u8, i32);
-int_muldiv_wide!(c12_native_muldiv_i16, i16, i64);
-int_muldiv_wide!(c12_native_muldiv_u16, u16, i64);
+int_mul_wide!(c12_native_mul_i8, i8, i32, "quick");
+int_mul_wide!(c12_native_mul_u8, u8, i32, "quick");
+int_mul_wide!(c12_native_mul_i16, i16, i32, "quick");
+int_mul_wide!(c12_native_mul_u16, u16, u32, "quick");
 
-macro_rules! int_mul_wide {
+macro_rules! int_mul_wide32 {
     ($name:ident, $t:ty, $w:ty) => {
-        //@ tier: quick
-        //@ timeout: 900
+        //@ tier: thorough
+        //@ timeout: 2400
         //@ functions: arrow_array::ArrowNativeTypeOp::{mul_checked, mul_wrapping}
         //@ bound: full width 32-bit operands; exact product in 64 bits (independent reference)
         //@ stub: alloc::fmt::format -> empty String
@@ -75,8 +61,46 @@ macro_rules! int_mul_wide {
     };
 }
 
-int_mul_wide!(c12_native_mul32_signed, i32, i64);
-int_mul_wide!(c12_native_mul32_unsigned, u32, i64);
+int_mul_wide32!(c12_native_mul32_signed, i32, i64);
+int_mul_wide32!(c12_native_mul32_unsigned, u32, u64);
+
+macro_rules! int_divmod_wide {
+    ($name:ident, $t:ty, $w:ty) => {
+        //@ tier: quick
+        //@ timeout: 900
+        //@ functions: arrow_array::ArrowNativeTypeOp::{div_checked, div_wrapping, mod_checked, mod_wrapping, is_zero}
+        //@ bound: full width 8/16-bit operands; exact quotient and remainder computed in i32 (independent reference): DivideByZero iff rhs == 0, overflow only for MIN / -1 (and MIN % -1, which std's checked_rem reports as overflow)
+        //@ stub: alloc::fmt::format -> empty String
+        #[kani::proof]
+        #[kani::stub(alloc::fmt::format, stub_format)]
+        fn $name() {
+            let a: $t = kani::any();
+            let b: $t = kani::any();
+            const MIN: $w = <$t>::MIN as $w;
+            const MAX: $w = <$t>::MAX as $w;
+            let (wa, wb) = (a as $w, b as $w);
+            match a.div_checked(b) {
+                Ok(r) => assert!(b != 0 && r as $w == wa / wb, "div_checked exact"),
+                Err(ArrowError::DivideByZero) => assert!(b == 0, "DivideByZero iff rhs == 0"),
+                Err(_) => assert!(b != 0 && (wa / wb < MIN || wa / wb > MAX), "div overflow"),
+            }
+            match a.mod_checked(b) {
+                Ok(r) => assert!(b != 0 && r as $w == wa % wb, "mod_checked exact"),
+                Err(ArrowError::DivideByZero) => assert!(b == 0, "DivideByZero iff rhs == 0"),
+                Err(_) => assert!(b != 0 && MIN < 0 && wa == MIN && wb == -1, "mod_checked errs (std checked_rem) only for MIN % -1"),
+            }
+            if b != 0 && !(MIN < 0 && wa == MIN && wb == -1) {
+                assert!(a.div_wrapping(b) as $w == wa / wb && a.mod_wrapping(b) as $w == wa % wb, "wrapping forms exact when defined");
+            }
+            assert!(a.is_zero() == (a == 0));
+            kani::cover!(a.div_checked(b).is_ok() && b != 1, "div ok");
+            kani::cover!(b == 0);
+        }
+    };
+}
+
+int_divmod_wide!(c12_native_divmod_i8, i8, i16);
+int_divmod_wide!(c12_native_divmod_u8, u8, i16);
 
 macro_rules! int_addsub_wide {
     ($name:ident, $t:ty, $w:ty) => {
@@ -124,43 +148,110 @@ int_addsub_wide!(c12_native_addsub_i64, i64, i128);
 int_addsub_wide!(c12_native_addsub_u32, u32, i64);
 int_addsub_wide!(c12_native_addsub_u64, u64, i128);
 
-macro_rules! int_muldiv_std {
+macro_rules! int_mul_by_small {
+    ($name:ident, $t:ty, $w:ty) => {
+        //@ tier: thorough
+        //@ timeout: 2400
+        //@ functions: arrow_array::ArrowNativeTypeOp::{mul_checked, mul_wrapping}
+        //@ bound: first operand full width, second operand in -128..=127 (0..=127 for unsigned types), both operand orders: exact product in a type twice as wide (independent reference); full-width x full-width products of 32-bit operands are in the thorough tier, 64/128-bit full products are not decided by Kani (i256 products: Engine M)
+        //@ stub: alloc::fmt::format -> empty String
+        #[kani::proof]
+        #[kani::stub(alloc::fmt::format, stub_format)]
+        fn $name() {
+            let a: $t = kani::any();
+            let s: i8 = kani::any();
+            kani::assume(<$t>::MIN != 0 || s >= 0);
+            let b = s as $t;
+            let e = (a as $w) * (b as $w);
+            let swap: bool = kani::any();
+            let r = if swap { b.mul_checked(a) } else { a.mul_checked(b) };
+            match r {
+                Ok(r) => assert!(r as $w == e, "mul_checked exact"),
+                Err(_) => assert!(e < <$t>::MIN as $w || e > <$t>::MAX as $w, "mul_checked errs only on overflow"),
+            }
+            assert!(a.mul_wrapping(b) == e as $t, "mul_wrapping = exact mod 2^w");
+            kani::cover!(a.mul_checked(b).is_err(), "overflow");
+            kani::cover!(a.mul_checked(b).is_ok() && s > 1 && a > 1000, "large product fits");
+        }
+    };
+}
+
+int_mul_by_small!(c12_native_mul_small_i32, i32, i64);
+int_mul_by_small!(c12_native_mul_small_u32, u32, i64);
+
+macro_rules! int_mul_by_const {
+    ($name:ident, $t:ty, $w:ty) => {
+        //@ tier: quick
+        //@ functions: arrow_array::ArrowNativeTypeOp::{mul_checked, mul_wrapping}
+        //@ bound: first operand full width, second operand one of the constants {0, 1, 2, 3, 10, MAX, -1 (signed types)} in either operand order: exact product in a type twice as wide; Err exactly when it does not fit (multiplication by a constant needs no multiplier reasoning, so this decides the overflow / wrap behaviour at full width; arbitrary x arbitrary products: 8/16-bit quick, 32-bit thorough)
+        //@ stub: alloc::fmt::format -> empty String
+        #[kani::proof]
+        #[kani::stub(alloc::fmt::format, stub_format)]
+        fn $name() {
+            let a: $t = kani::any();
+            let sel: u8 = kani::any();
+            kani::assume(sel < 7);
+            let b: $t = match sel {
+                0 => 0,
+                1 => 1,
+                2 => 2,
+                3 => 3,
+                4 => 10,
+                5 => <$t>::MAX,
+                _ => (0 as $t).wrapping_sub(1),
+            };
+            let e = (a as $w) * (b as $w);
+            let swap: bool = kani::any();
+            let r = if swap { b.mul_checked(a) } else { a.mul_checked(b) };
+            match r {
+                Ok(r) => assert!(r as $w == e, "mul_checked exact"),
+                Err(_) => assert!(e < <$t>::MIN as $w || e > <$t>::MAX as $w, "mul_checked errs only on overflow"),
+            }
+            assert!(a.mul_wrapping(b) == e as $t, "mul_wrapping = exact mod 2^w");
+            kani::cover!(a.mul_checked(b).is_err() && sel == 2, "doubling overflows");
+            kani::cover!(a.mul_checked(b).is_ok() && sel == 4 && a > 100, "times ten fits");
+        }
+    };
+}
+
+int_mul_by_const!(c12_native_mul_const_i32, i32, i64);
+int_mul_by_const!(c12_native_mul_const_u32, u32, u64);
+int_mul_by_const!(c12_native_mul_const_i64, i64, i128);
+int_mul_by_const!(c12_native_mul_const_u64, u64, u128);
+
+macro_rules! int_div_classes {
     ($name:ident, $t:ty) => {
         //@ tier: quick
-        //@ functions: arrow_array::ArrowNativeTypeOp::{mul,div,mod}_{checked,wrapping}
-        //@ bound: full width; reference = the std checked_*/wrapping_* operation itself (identical circuit on both sides): decides that the trait method returns Ok exactly when std's checked op does, with its value, and DivideByZero exactly for a zero divisor - i.e. it detects a checked->wrapping swap or a wrong error branch; it is NOT an independent multiplier/divider proof (that exists for 8/16/32-bit above and for i256 via Engine M)
+        //@ timeout: 600
+        //@ functions: arrow_array::ArrowNativeTypeOp::{div_checked, mod_checked}
+        //@ bound: full width: the OUTCOME CLASS of div_checked / mod_checked for every operand pair - DivideByZero exactly for a zero divisor, ArithmeticOverflow exactly for MIN / -1 (MIN % -1), Ok otherwise; quotient VALUES are decided only for the 8-bit types (c12_native_divmod_*)
         //@ stub: alloc::fmt::format -> empty String
         #[kani::proof]
         #[kani::stub(alloc::fmt::format, stub_format)]
         fn $name() {
             let a: $t = kani::any();
             let b: $t = kani::any();
-            match a.mul_checked(b) {
-                Ok(r) => assert!(a.checked_mul(b) == Some(r), "mul_checked ok iff std checked_mul"),
-                Err(_) => assert!(a.checked_mul(b).is_none(), "mul_checked errs only on overflow"),
-            }
-            assert!(a.mul_wrapping(b) == a.wrapping_mul(b));
+            let min_by_minus_one = <$t>::MIN != 0 && a == <$t>::MIN && b.wrapping_add(1) == 0;
             match a.div_checked(b) {
-                Ok(r) => assert!(b != 0 && a.checked_div(b) == Some(r)),
-                Err(ArrowError::DivideByZero) => assert!(b == 0),
-                Err(_) => assert!(b != 0 && a.checked_div(b).is_none()),
+                Ok(_) => assert!(b != 0 && !min_by_minus_one, "Ok only when defined"),
+                Err(ArrowError::DivideByZero) => assert!(b == 0, "DivideByZero iff rhs == 0"),
+                Err(_) => assert!(b != 0 && min_by_minus_one, "overflow only for MIN / -1"),
             }
             match a.mod_checked(b) {
-                Ok(r) => assert!(b != 0 && a.checked_rem(b) == Some(r)),
+                Ok(_) => assert!(b != 0 && !min_by_minus_one),
                 Err(ArrowError::DivideByZero) => assert!(b == 0),
-                Err(_) => assert!(b != 0 && a.checked_rem(b).is_none()),
+                Err(_) => assert!(b != 0 && min_by_minus_one),
             }
-            kani::cover!(a.mul_checked(b).is_err(), "mul overflows");
-            kani::cover!(a.div_checked(b).is_ok(), "div ok");
             kani::cover!(b == 0);
+            kani::cover!(b != 0 && a.div_checked(b).is_ok());
         }
     };
 }
 
-int_muldiv_std!(c12_native_muldiv_std_i32, i32);
-int_muldiv_std!(c12_native_muldiv_std_i64, i64);
-int_muldiv_std!(c12_native_muldiv_std_u64, u64);
-int_muldiv_std!(c12_native_muldiv_std_i128, i128);
+int_div_classes!(c12_native_div_classes_i32, i32);
+int_div_classes!(c12_native_div_classes_i64, i64);
+int_div_classes!(c12_native_div_classes_u64, u64);
+int_div_classes!(c12_native_div_classes_i128, i128);
 
 //@ tier: quick
 //@ functions: arrow_array::ArrowNativeTypeOp for i128: add/sub/neg checked+wrapping
@@ -194,38 +285,32 @@ fn c12_native_addsub_i128() {
 }
 
 //@ tier: quick
-//@ functions: arrow_array::ArrowNativeTypeOp::pow_checked, pow_wrapping (i16 with symbolic exponent; i32 with exponents 2 and 3)
-//@ bound: i16: full-width base, exponent 0..=4 symbolic, exact result in i128; i32: full-width base, concrete exponents 2 and 3, exact result in i128
+//@ functions: arrow_array::ArrowNativeTypeOp::pow_checked, pow_wrapping (i8)
+//@ bound: i8 base full width, exponent 0..=3 symbolic, exact result in i32
 //@ stub: alloc::fmt::format -> empty String
 #[kani::proof]
-#[kani::unwind(6)]
+#[kani::unwind(8)]
 #[kani::stub(alloc::fmt::format, stub_format)]
 fn c12_native_pow_small() {
-    let a: i16 = kani::any();
+    // i8 base, exponent 0..=3: exact value in i32 (i16 with exponent <= 4 took 450 s)
+    let a: i8 = kani::any();
     let e: u32 = kani::any();
-    kani::assume(e <= 4);
-    let mut exact: i128 = 1;
+    kani::assume(e <= 3);
+    let mut exact: i32 = 1;
     let mut k = 0;
-    while k < 4 {
+    while k < 3 {
         if k < e {
-            exact *= a as i128;
+            exact *= a as i32;
         }
         k += 1;
     }
     match a.pow_checked(e) {
-        Ok(r) => assert!(r as i128 == exact, "pow exact"),
-        Err(_) => assert!(exact > i16::MAX as i128 || exact < i16::MIN as i128, "pow errs only on overflow"),
+        Ok(r) => assert!(r as i32 == exact, "pow exact"),
+        Err(_) => assert!(exact > i8::MAX as i32 || exact < i8::MIN as i32, "pow errs only on overflow"),
     }
-    assert!(a.pow_wrapping(e) == exact as i16, "pow_wrapping");
-    let b: i32 = kani::any();
-    let sq = (b as i128) * (b as i128);
-    match b.pow_checked(2) {
-        Ok(r) => assert!(r as i128 == sq, "square exact"),
-        Err(_) => assert!(sq > i32::MAX as i128, "square errs only on overflow"),
-    }
+    assert!(a.pow_wrapping(e) == exact as i8, "pow_wrapping");
     kani::cover!(a.pow_checked(e).is_err());
-    kani::cover!(e == 4 && a.pow_checked(e).is_ok() && a > 10);
-    kani::cover!(b.pow_checked(2).is_err());
+    kani::cover!(e == 3 && a.pow_checked(e).is_ok() && a > 3);
 }
 
 //@ tier: quick
